@@ -314,6 +314,28 @@ Theorem C11_nextfile_from_range_stop :
     exec_rules U step enter e fuel (r :: rules) i done (true :: fl) u s = LCont u1 (drop_file s1) (rev (true :: done) ++ fl).
 Proof. exact exec_rules_range_stop_nextfile. Qed.
 Print Assumptions C11_nextfile_from_range_stop.
+(* the OPENING record: the first pattern of a closed range matches and next / nextfile is executed in a
+   function called from the second pattern on that same record: the range flag is SET afterwards -- the
+   following records are in the range although none of them matched the first pattern *)
+Theorem C11_next_from_range_stop_on_opening_record :
+  forall (U : Type) (step : U -> st -> req * U) (enter : blk -> U -> U) (e : env)
+         fuel r rules i done fl u s u1 s1 u2 s2,
+    rk r = PRange ->
+    run U step e fuel (enter (BPat i false) u) s = ROk (OVal true) u1 s1 ->
+    run U step e fuel (enter (BPat i true) u1) s1 = ROk ONext u2 s2 ->
+    exec_rules U step enter e fuel (r :: rules) i done (false :: fl) u s = LCont u2 s2 (rev (true :: done) ++ fl).
+Proof. exact exec_rules_opening_record_next. Qed.
+Theorem C11_nextfile_from_range_stop_on_opening_record :
+  forall (U : Type) (step : U -> st -> req * U) (enter : blk -> U -> U) (e : env)
+         fuel r rules i done fl u s u1 s1 u2 s2,
+    rk r = PRange ->
+    run U step e fuel (enter (BPat i false) u) s = ROk (OVal true) u1 s1 ->
+    run U step e fuel (enter (BPat i true) u1) s1 = ROk ONextfile u2 s2 ->
+    exec_rules U step enter e fuel (r :: rules) i done (false :: fl) u s = LCont u2 (drop_file s2) (rev (true :: done) ++ fl).
+Proof. exact exec_rules_opening_record_nextfile. Qed.
+Print Assumptions C11_next_from_range_stop_on_opening_record.
+Print Assumptions C11_nextfile_from_range_stop_on_opening_record.
+
 Print Assumptions C11_next_anywhere.
 Print Assumptions C11_nextfile_anywhere.
 
